@@ -79,6 +79,26 @@ struct SNode : public Elem
 	SNode* clone() const { return new SNode(v); }
 };
 
+// nodes of a list held together by container handles stored inside the elements (a tree descent: cur = cur[0].kids)
+struct ANode : public Elem
+{
+	asl::Array<ANode> kids;
+	ANode() : Elem(0) {}
+	ANode(int x) : Elem(x) {}
+};
+struct MNode : public Elem
+{
+	asl::Map<int, MNode> next;
+	MNode() : Elem(0) {}
+	MNode(int x) : Elem(x) {}
+};
+struct HNode : public Elem
+{
+	asl::HashMap<int, HNode> next;
+	HNode() : Elem(0) {}
+	HNode(int x) : Elem(x) {}
+};
+
 } // namespace c12
 using namespace c12;
 
@@ -765,6 +785,81 @@ struct Chain<asl::SmartObject>
 	static void clear(H& h) { h = H((asl::SmartObject_*)0); }
 };
 
+template <>
+struct Chain<asl::Array<ANode>>
+{
+	typedef asl::Array<ANode> H;
+	static const char* name() { return "Array;chain"; }
+	static H make(int len)
+	{
+		H cur; // the empty array ends the chain
+		for (int i = len; i >= 1; i--)
+		{
+			H a;
+			a << ANode(i);
+			a[0].kids = cur;
+			cur = a;
+		}
+		return cur;
+	}
+	static bool null(const H& h) { return h.length() == 0; }
+	static void advance(H& h) { h = h[0].kids; }
+	static bool ok(const H& h) { return h[0].ok(); }
+	static void clear(H& h) { h = H(); }
+};
+template <>
+struct Chain<asl::Map<int, MNode>>
+{
+	typedef asl::Map<int, MNode> H;
+	static const char* name() { return "Map;chain"; }
+	static H make(int len)
+	{
+		H cur;
+		for (int i = len; i >= 1; i--)
+		{
+			H m;
+			m[1] = MNode(i);
+			m[1].next = cur;
+			cur = m;
+		}
+		return cur;
+	}
+	static bool null(const H& h) { return h.length() == 0; }
+	static void advance(H& h)
+	{
+		const H& c = h;
+		h = c[1].next;
+	}
+	static bool ok(const H& h) { return h[1].ok(); }
+	static void clear(H& h) { h = H(); }
+};
+template <>
+struct Chain<asl::HashMap<int, HNode>>
+{
+	typedef asl::HashMap<int, HNode> H;
+	static const char* name() { return "HashMap;chain"; }
+	static H make(int len)
+	{
+		H cur(8);
+		for (int i = len; i >= 1; i--)
+		{
+			H m(8);
+			m[1] = HNode(i);
+			m[1].next = cur;
+			cur = m;
+		}
+		return cur;
+	}
+	static bool null(const H& h) { return h.length() == 0; }
+	static void advance(H& h)
+	{
+		const H& c = h;
+		h = c[1].next;
+	}
+	static bool ok(const H& h) { return h[1].ok(); }
+	static void clear(H& h) { h = H(8); }
+};
+
 template <class H>
 struct Walker
 {
@@ -825,6 +920,14 @@ void runChain(const Plan& p)
 {
 	int T = (int)std::max<int64_t>(1, std::min<int64_t>(8, p.get("threads", 2)));
 	int len = (int)std::max<int64_t>(1, std::min<int64_t>(6, p.get("len", 3)));
+	{
+		// function-local statics of the library (the default element of Map::operator[] const) are built once per
+		// process and are not part of this run's accounting
+		sim::NoSched ns;
+		H tmp = Chain<H>::make(2);
+		Chain<H>::ok(tmp);
+		Chain<H>::advance(tmp);
+	}
 	g_ctor = g_dtor = g_live = g_badDestroy = g_badRead = 0;
 	sim::enableDestructionRaceOracle(true);
 	size_t heap0 = sim::heapLive();
@@ -888,6 +991,9 @@ void runChain(const Plan& p)
 	if (sim::heapTracking() && sim::heapLive() != heap0)
 		sim::fail("leak", (std::string(Chain<H>::name()) + ";heap").c_str(), "heap blocks live after the last handle was dropped: %zu (before: %zu)", sim::heapLive(), heap0);
 }
+void runArrayChain(const Plan& p) { runChain<asl::Array<ANode>>(p); }
+void runMapChain(const Plan& p) { runChain<asl::Map<int, MNode>>(p); }
+void runHashMapChain(const Plan& p) { runChain<asl::HashMap<int, HNode>>(p); }
 void runSharedChain(const Plan& p) { runChain<asl::Shared<SNode>>(p); }
 void runSmartChain(const Plan& p) { runChain<asl::SmartObject>(p); }
 
@@ -908,6 +1014,9 @@ HSCEN(c12_hashdic, "hashdic_handles", runHashDic);
 HSCEN(c12_shared, "shared_ptr", runShared);
 HSCEN(c12_smart, "smartobject", runSmart);
 HSCEN(c12_socket, "socket_handles", runSocket);
+REGISTER_SCENARIO(c12_array_chain, "C12", "array_chain", genChain, runArrayChain, 50000, 3000000, {2, 3, 4, 8, 16}, 35, 200000, 60.0, RULE_CHAIN, REAL, STUB, true);
+REGISTER_SCENARIO(c12_map_chain, "C12", "map_chain", genChain, runMapChain, 50000, 3000000, {2, 3, 4, 8, 16}, 35, 200000, 60.0, RULE_CHAIN, REAL, STUB, true);
+REGISTER_SCENARIO(c12_hashmap_chain, "C12", "hashmap_chain", genChain, runHashMapChain, 50000, 3000000, {2, 3, 4, 8, 16}, 35, 200000, 60.0, RULE_CHAIN, REAL, STUB, true);
 REGISTER_SCENARIO(c12_shared_chain, "C12", "shared_chain", genChain, runSharedChain, 50000, 3000000, {2, 3, 4, 8, 16}, 35, 200000, 60.0, RULE_CHAIN, REAL, STUB, true);
 REGISTER_SCENARIO(c12_smart_chain, "C12", "smart_chain", genChain, runSmartChain, 50000, 3000000, {2, 3, 4, 8, 16}, 35, 200000, 60.0, RULE_CHAIN, REAL, STUB, true);
 REGISTER_SCENARIO(c12_count, "C12", "atomic_count", genCount, runCount, 250000, 10000000, {2, 3, 4, 8}, 35, 100000, 60.0, RULE, REAL, STUB, true);
